@@ -18,6 +18,8 @@ type namedString string
 type namedFloat float64
 type namedMap map[string]interface{}
 type namedSlice []interface{}
+type namedBool bool
+type errHolder struct{ Err error }
 
 var (
 	opaqueInt   = 7
@@ -34,7 +36,7 @@ var OpaqueKinds = []string{"struct", "empty-struct", "uncomparable-struct", "ptr
 	"map-iface-iface", "slice-of-maps", "named-string", "named-float", "named-map", "named-slice", "map-string-int", "uncomparable-ptr",
 	// statically comparable types whose DYNAMIC content is not (interface == on them panics), and pointers that are
 	// distinct objects with deep-equal content (identity and deep equality disagree)
-	"struct-iface-slice", "struct-iface-map", "array-iface-slice", "fresh-ptr-struct", "fresh-ptr-int", "fresh-ptr-slice", "struct-with-fresh-ptr", "iface-array-comparable"}
+	"struct-iface-slice", "struct-iface-map", "array-iface-slice", "fresh-ptr-struct", "fresh-ptr-int", "fresh-ptr-slice", "struct-with-fresh-ptr", "iface-array-comparable", "named-bool", "nil-func", "nil-chan", "nil-error-iface-in-struct", "rune", "uintptr"}
 
 type ifaceHolder struct {
 	Name  string
@@ -125,6 +127,18 @@ func Opaque(i int) interface{} {
 		return ptrHolder{ID: 1, Next: &v}
 	case "iface-array-comparable":
 		return [2]interface{}{1.0, "a"}
+	case "named-bool":
+		return namedBool(true)
+	case "nil-func":
+		return (func())(nil)
+	case "nil-chan":
+		return (chan int)(nil)
+	case "nil-error-iface-in-struct":
+		return errHolder{}
+	case "rune":
+		return 'a'
+	case "uintptr":
+		return uintptr(1)
 	}
 	return nil
 }
